@@ -6,7 +6,7 @@
 From Coq Require Import List ZArith Lia Bool Arith.
 Import ListNotations.
 Require Import Vault Row Table Grid Tableabs Transform Transformspec Transformproof Transformproof2 Transformproof3
-               Transformproof4 Transformproof5 Transformproof7 Transformproof9 Transformproof10 Transformproof11 Transformproof12.
+               Transformproof4 Transformproof5 Transformproof7 Transformproof9 Transformproof10 Transformproof11 Transformproof12 Transformproof13.
 Open Scope Z_scope.
 
 (* ================= rstrip ================= *)
@@ -57,6 +57,12 @@ Theorem C17_optimize_width_keeps_nonempty_values : forall (a : calg) (t t' : tst
   cell_empty a true (gcell x y (abs_t t)) = false -> gcell x y (abs_t t') = gcell x y (abs_t t).
 Proof. exact optimize_width_keeps_nonempty. Qed.
 Print Assumptions C17_optimize_width_keeps_nonempty_values.
+
+(* idempotent, at the level of the run-length state itself: a second call changes nothing *)
+Theorem C17_optimize_width_idempotent : forall (a : calg) (t t' : tstate), WF t ->
+  t_optimize_width a true t = Some t' -> t_optimize_width a true t' = Some t'.
+Proof. exact optimize_width_idem. Qed.
+Print Assumptions C17_optimize_width_idempotent.
 
 (* the strip law as the checker evaluates it implies, for ANY pair of grids, that every cell that is not empty
    (aggressive reading) keeps its coordinates — so the correspondence check's law is the property's statement *)
